@@ -1,5 +1,6 @@
 import Model.PagingWalk
 import Proofs.C15Hist
+import Proofs.C15Cancel
 /-! helper lemmas for the walk model of C15 (`Model/PagingWalk.lean`): every step of a walk keeps
     (a) what the iterator has delivered plus what it will still deliver (`Hist.tot`), and (b) the relation
     between the asynchronous prefetch and the consumer's position on the current page. -/
@@ -477,5 +478,65 @@ theorem strideLog_spec (ppOf : Int → Nat → Nat) (R : List Int) : ∀ (steps 
       have h := arrive_J ppOf R w hw
       simp only [strideLog, strideKs, step]
       rw [ih _ h.1, h.2]
+
+/-! ### walks with cancellation: the invariant `Hist.K` -/
+
+/-- K for the iterator's own result, which never changes -/
+def WK (ppOf : Int → Nat → Nat) (T : List Int × List Req × Option Fail) (w : W) : Prop := K ppOf T w.it
+
+theorem scanK_WK (ppOf : Int → Nat → Nat) (api : Api) (T : List Int × List Req × Option Fail) : ∀ (k : Nat) (w : W),
+    WK ppOf T w → WK ppOf T (scanK ppOf api k w).1 := by
+  intro k
+  induction k with
+  | zero => intro w hw; exact hw
+  | succ k ih =>
+    intro w hw
+    unfold scanK
+    have h1 : WK ppOf T (scan1 ppOf api w).1 := scanF_K ppOf T (scanFuel w.it) w.env w.it hw
+    simp only []
+    split
+    · exact ih _ h1
+    · exact h1
+
+theorem step_WK (ppOf : Int → Nat → Nat) (T : List Int × List Req × Option Fail) (w : W) (s : Step)
+    (hw : WK ppOf T w) : WK ppOf T (step ppOf w s) := by
+  cases s with
+  | scan api k => exact scanK_WK ppOf api T k w hw
+  | observe => exact hw
+  | await =>
+    show K ppOf T (await ppOf w).1.it
+    unfold await
+    cases w.it.cur.next with
+    | none => exact hw
+    | some n =>
+      simp only []
+      cases w.async with
+      | idle => exact hw
+      | launched => exact force_K ppOf T w.env w.it hw
+      | disarmed => exact hw
+      | awaited => exact hw
+  | arrive =>
+    show K ppOf T (arrive ppOf w).it
+    unfold arrive
+    split
+    · exact force_K ppOf T w.env w.it hw
+    · exact hw
+
+theorem execX_WK (ppOf : Int → Nat → Nat) (T : List Int × List Req × Option Fail) : ∀ (steps : List StepX) (w : W),
+    WK ppOf T w → WK ppOf T (execX ppOf w steps) := by
+  intro steps
+  induction steps with
+  | nil => intro w hw; exact hw
+  | cons s rest ih =>
+    intro w hw
+    apply ih
+    cases s with
+    | base s => exact step_WK ppOf T w s hw
+    | cancel c => exact hw
+
+theorem start_WK (ppOf : Int → Nat → Nat) (script : List Reply) (q : Qry) :
+    WK ppOf (obs3 (run (ppOf q.pf) script false q)) (start ppOf script q) := by
+  have h := startIter_K (fun _ _ => script) ppOf env0 q
+  exact h
 
 end Paging.Walk
